@@ -172,7 +172,7 @@ def post_punct(old, result, exc, args, kw):
 
 
 def post_traces(old, result, exc, args, kw):
-    if 'slash' in kw and isinstance(exc, (ValueError, AttributeError)):
+    if 'slash' in kw and isinstance(exc, ValueError):
         Cur.ctx.stratum('traces: slash rejected')
         return
     r = common_post('ptb_delete_traces', old, result, exc, args)
